@@ -327,6 +327,10 @@ def judge(case, m):
             sl_ref = ref.slices[nm]
             B = np.asarray(ref.design_matrix[:, sl_ref], dtype=float).copy()
             ncell = len(t.groups)
+            if ncell == 0 or B.shape[1] % ncell != 0:
+                problems.append(("block", f"{nm}: with a seen level substituted the block has {B.shape[1]} columns for {ncell} groups"))
+                start += B.shape[1]
+                continue
             p = B.shape[1] // max(1, ncell)
             if fac_hit[nm]:
                 E = B.reshape(n_new, ncell, p).sum(axis=1)  # effect values of every row
